@@ -412,6 +412,9 @@ def new_controller(exp, initial_stage=0, restart_sources=None):
     wg = exp.experimentGraph
     comps = []
     for job_name in networkx.topological_sort(exp.graph):
+        if os.environ.get('VERIF_KSWITCHLOG'):
+            with open(os.environ['VERIF_KSWITCHLOG'] + '.%d' % os.getpid(), 'a') as fh:
+                fh.write('COMPONENT %s\n' % job_name)
         data = exp.graph.nodes[job_name]
         stage = exp._stages[data['stageIndex']]
         spec = data['componentSpecification']
@@ -455,6 +458,25 @@ def install_probes():
         return o_run(self)
 
     CS.run = cs_run
+
+    o_stop = Ctl._stopComponents
+
+    def ctl_stop_components(self, components, stop_optimizer):
+        # seam, not observation: the stage-completion hook hands over a *set* of ComponentState objects, whose iteration
+        # order follows memory addresses (which differ with the worker's history). The order in which the components of
+        # a stage are stopped is the simulator's to decide: sorted by reference, then permuted by recorded decisions.
+        if isinstance(components, (set, frozenset)):
+            comps = sorted(components, key=lambda c: c.specification.reference)
+            k = simk.K
+            if k is not None and k.active and len(comps) > 1:
+                order = []
+                while comps:
+                    order.append(comps.pop(k.decide(len(comps))))
+                comps = order
+            components = comps
+        return o_stop(self, components, stop_optimizer)
+
+    Ctl._stopComponents = ctl_stop_components
 
     o_stagein = CS.stageIn
 
